@@ -416,3 +416,7 @@ func (p *Program) expandSweeps() {
 		}
 	}
 }
+
+func ssautilAllFunctions(p *Program) map[*ssa.Function]bool {
+	return ssautil.AllFunctions(p.Prog)
+}
